@@ -327,6 +327,8 @@ def obligations(tier, seed):
               for k0 in (range(len(KS)) if n >= 2 else (None,)):
                 if k0 == 0 and fn == "h_lazy_decode":
                     continue        # the first item lacks its key: entirely inside the recorded finding's region
+                if n == 3 and fn == "h_lazy_decode":
+                    continue        # three items cannot have three distinct keys from the pool: every document is in that region
                 out.append({"name": "%s/lazy1/n%d/%s%s" % (label, n, "thin" if thin else "full", "" if k0 is None else "/k0=%d" % k0), "fn": fn, "pre": "pre_doc",
                             "args": [a for a in args if k0 is None or a[0] != "k0"],
                             "config": {"n": n, "lazy": 1, "thin": thin, "lims": {"r1": 2, "c1": 3, "c0": 3} if (quick and n == 2) else ({"r0": 2, "r1": 2, "r2": 2, "c0": 2, "c1": 3, "c2": 2} if n == 3 else {}),
